@@ -424,6 +424,50 @@ FORBIDDEN_UNDER_GUARD = ("write_output_file", "add_c_helper", "add_f_helper", "a
                          "add_capsule_code", "add_destructor")
 
 
+
+def rule_r10(repo, run):
+    R = run.rule("C16.R10", "a list that receives splicer marker comments (`! splicer begin ...`, written only when "
+                            "show_splicer_comments is on) is never *tested*: whether a token is written must not depend on whether "
+                            "the list is empty")
+    n = 0
+    for mn in ("wrapf", "wrapc", "wrapp", "wrapl"):
+        m = repo.module(mn)
+        tainted = set()
+        for c in ast.walk(m.tree):
+            if isinstance(c, ast.Call) and (pyflow.call_name(c) or "").endswith("._create_splicer") and len(c.args) >= 2 \
+                    and isinstance(c.args[1], ast.Attribute):
+                tainted.add(c.args[1].attr)
+        if not tainted:
+            continue
+        for q, fn in sorted(m.functions().items()):
+            # locals computed from a tainted list
+            local = set()
+            for a in ast.walk(fn):
+                if isinstance(a, ast.Assign) and len(a.targets) == 1 and isinstance(a.targets[0], ast.Name) \
+                        and any(isinstance(x, ast.Attribute) and x.attr in tainted and isinstance(x.ctx, ast.Load) for x in ast.walk(a.value)) \
+                        and not isinstance(a.value, ast.Attribute):
+                    local.add(a.targets[0].id)
+            for i in ast.walk(fn):
+                if not isinstance(i, (ast.If, ast.IfExp)):
+                    continue
+                reads = [x for x in ast.walk(i.test) if (isinstance(x, ast.Attribute) and x.attr in tainted and isinstance(x.value, ast.Name)
+                                                         and x.value.id in ("self", "fileinfo"))
+                         or (isinstance(x, ast.Name) and x.id in local)]
+                if not reads:
+                    continue
+                n += 1
+                body = i.body if isinstance(i, ast.If) else [i.body]
+                tokens = [c_ for st in body for c_ in ast.walk(st) if isinstance(c_, ast.Constant) and isinstance(c_.value, str)
+                          and c_.value.strip() and not c_.value.lstrip("+-@^ ").startswith(("!", "//", "/*", "#", "--"))
+                          and isinstance(getattr(c_, "_parent", None), ast.Call)
+                          and (pyflow.call_name(c_._parent) or "").split(".")[-1] in ("append", "append_format", "extend")]
+                run.check(R, "%s.%s:test-of-%s" % (mn, q, ast.unparse(reads[0])), not tokens,
+                          "`%s` tests a list that holds the splicer marker comments when show_splicer_comments is on, and `%s` is "
+                          "written under it: the token appears or disappears with a comment-only option"
+                          % (ast.unparse(i.test)[:60], tokens[0].value if tokens else ""), m.loc(i))
+    run.ok(R, "splicer-comment lists", sample=dict(tests=n))
+
+
 def run(repo, run, tier):
     R1 = run.rule("C16.R1", "both branches of every debug/doxygen/literalinclude/show_splicer_comments guard "
                             "have comment-only effects")
@@ -787,6 +831,7 @@ def run(repo, run, tier):
                           "continuation lines into the generated file as code when the option is on"
                           % (mod.seg(raw[0]) if raw else ""), mod.loc(c))
     run.floor(R1, "comment lines built by concatenation", nc, 10)
+    rule_r10(repo, run)
     run.assumptions.append("comment leaders: // /* * for the C family, ! for Fortran, self.comment / "
                            "self.doxygen_* attributes, cstart/cend/fstart/fend constants")
 
